@@ -68,6 +68,9 @@ func MakeConfig(profile, tier string, seed int64, idx int) Config {
 		cfg.HandshakeDelayMax = 4
 		cfg.StarveSome = true
 		cfg.CcvTimeout = time.Duration(120+r.Intn(400)) * time.Second
+		if idx%2 == 1 {
+			cfg.ErrAckStep = 12 + r.Intn(25)
+		}
 	case "rewards":
 		cfg.LiveConsumers = 2
 		cfg.HandshakeDelayMax = 2
